@@ -64,6 +64,8 @@ RemoteReply ==
   /\ Is("RemoteReply")
   /\ st' = IF Ev.err THEN st
            ELSE IF Ev.kind = "good" THEN [st EXCEPT !.replyGood = @ \cup {Ev.c}]
+           \* "badbody": a reply whose body does not decode under a known codec: that call fails, the session lives on
+           ELSE IF Ev.kind = "badbody" THEN [st EXCEPT !.replyBad = @ \cup {Ev.c}]
            ELSE [st EXCEPT !.replyBad = @ \cup {Ev.c}, !.anyBad = TRUE]
   /\ Step
 
@@ -75,7 +77,7 @@ CallDone ==
   /\ G("C02", Ev.c \notin st.done /\ Ev.deliveries = 1)
   /\ IF Ev.code = 0
        THEN G("C02", Ev.c \in st.replyGood) /\ G("C01", Ev.okres /\ Ev.okmeta)
-       ELSE G("C08", \/ st.connDown \/ st.anyBad
+       ELSE G("C08", \/ st.connDown \/ st.anyBad \/ Ev.c \in st.replyBad
                      \/ (Ev.c \notin st.replyGood /\ st.closeCalled /\ Ev.c \notin st.retBeforeClose))
   /\ st' = [st EXCEPT !.done = @ \cup {Ev.c}]
   /\ Step
